@@ -285,6 +285,67 @@ func runSeq(r *h.Run, label string, seq []packet.Generic, credsConfigured bool, 
 	r.Distinct("event_traces", b.Log.Trace())
 }
 
+// runFault: one backend hook fails at its first call while a client pipelines
+// CONNECT, SUBSCRIBE, PUBLISH, PINGREQ and DISCONNECT. Whatever the backend
+// does, the wire must show at most one CONNACK, as the first packet, nothing
+// after a refusing one, and the connection must end.
+func runFault(r *h.Run, f bh.HookFault, creds bool, rng *rand.Rand) {
+	r.Eval()
+	b := bh.NewBroker()
+	cr := 0
+	if creds {
+		b.Mon.Inner.Credentials = map[string]string{"user": "secret"}
+		cr = 1
+	}
+	b.Mon.AddFault(f)
+	defer b.Shutdown()
+	p, _ := b.Attach("t", nil)
+	defer p.Close()
+	seq := []packet.Generic{instance(packet.CONNECT, rng, cr), instance(packet.SUBSCRIBE, rng, 0), &packet.Publish{ID: 7, Message: packet.Message{Topic: "pub/a", QOS: 1, Payload: []byte("x")}}, &packet.Pingreq{}, &packet.Disconnect{}}
+	desc := fmt.Sprintf("backend hook %s fails at its first call (before the inner call=%t) creds=%t [%s]", f.Hook, f.Before, creds, kinds(seq))
+	r.Journal("C20 %s", desc)
+	fail := func(key, msg string) {
+		r.Violation(key, desc+": "+msg, map[string]interface{}{"fault": f.Hook, "before": f.Before, "creds_configured": creds, "detail": msg, "event_log": b.Log.Dump(80)})
+	}
+	var burst []byte
+	for _, g := range seq {
+		enc, _ := ref.Encode(g)
+		burst = append(burst, enc...)
+	}
+	_ = p.SendRaw(burst, desc)
+	if !p.WaitEOF(bh.Watchdog) {
+		fail("not-closed", "the broker did not close the connection (watchdog)")
+		return
+	}
+	if err := p.ProtocolError(); err != nil {
+		fail("malformed-from-broker", err.Error())
+	}
+	connacks, refused := 0, -1
+	var got []string
+	for i, g := range p.All() {
+		got = append(got, ref.Canon(g))
+		if ca, ok := g.(*packet.Connack); ok {
+			connacks++
+			if i != 0 {
+				fail("connack-not-first", fmt.Sprintf("CONNACK was not the first packet written: %v", got))
+			}
+			if ca.ReturnCode != packet.ConnectionAccepted && refused < 0 {
+				refused = i
+			}
+		}
+	}
+	if connacks > 1 {
+		fail("connack-twice", fmt.Sprintf("%d CONNACKs were sent: %v", connacks, got))
+	}
+	if refused >= 0 && len(got) > refused+1 {
+		fail("packets-after-refusal", fmt.Sprintf("packets followed a refusing CONNACK: %v", got))
+	}
+	if connacks == 0 && len(got) > 0 {
+		fail("reply-without-connack", fmt.Sprintf("packets were sent to a connection that never got a CONNACK: %v", got))
+	}
+	r.NonTrivial(fmt.Sprintf("fault/%s/%t/%t", f.Hook, f.Before, creds))
+}
+
 func minus(a, b []string) []string {
 	cnt := map[string]int{}
 	for _, x := range b {
@@ -304,7 +365,7 @@ func minus(a, b []string) []string {
 
 func TestCheck(t *testing.T) {
 	r := h.New("C20", "exploration")
-	r.Rule("all packet-kind sequences of length 1..3 over the 14 packet types (first, second, third packet) x {no credentials configured, valid, wrong password, unknown user} written in one burst, garbage and truncated first frames, and PRNG pipelines of up to 40 packets with small, repeating packet ids and 1-8 filters per SUBSCRIBE; oracle: zero bytes and zero backend hooks before an accepted CONNECT, exactly CONNACK(5) and only Authenticate after a failed authentication, closing packets close, response multiset = request multiset behind a final SUBSCRIBE fence through the ack queue, at most one CONNACK and first. Non-trivial = sequences whose first packet is not CONNECT, or accepted CONNECT followed by >= 1 packet; distinct by sequence content")
+	r.Rule("all packet-kind sequences of length 1..3 over the 14 packet types (first, second, third packet) x {no credentials configured, valid, wrong password, unknown user} written in one burst, garbage and truncated first frames, and PRNG pipelines of up to 40 packets with small, repeating packet ids and 1-8 filters per SUBSCRIBE; oracle: zero bytes and zero backend hooks before an accepted CONNECT, exactly CONNACK(5) and only Authenticate after a failed authentication, closing packets close, response multiset = request multiset behind a final SUBSCRIBE fence through the ack queue, at most one CONNACK and first; the same pipelined session with every backend hook {Authenticate, Setup, Restore, Subscribe, Publish, Dequeue, Terminate} failing at its first call, before or after the inner call (at most one CONNACK, first, nothing after a refusing one, connection ends). Non-trivial = sequences whose first packet is not CONNECT, or accepted CONNECT followed by >= 1 packet; distinct by sequence content")
 	r.Assume("acknowledgements that travel through the broker's ack queue (SUBACK, UNSUBACK, PUBACK, PUBCOMP) for requests that precede a connection-closing packet in the same burst may be lost with the connection; CONNACK and PINGRESP, which the processor writes itself, must still arrive; nothing unsolicited may appear")
 	r.Exhaustive()
 	types := packet.Types()
@@ -393,5 +454,15 @@ func TestCheck(t *testing.T) {
 		runSeq(r, "raw-first-frame", []packet.Generic{&packet.Pingreq{}}, i%2 == 0, raws[i])
 	})
 	r.Count("raw_first_frames", int64(len(raws)))
+	// backend failures at every hook while a client pipelines a whole session
+	var hf []bh.HookFault
+	for _, hk := range []string{"Authenticate", "Setup", "Restore", "Subscribe", "Publish", "Dequeue", "Terminate"} {
+		hf = append(hf, bh.HookFault{Hook: hk, K: 1, Before: true}, bh.HookFault{Hook: hk, K: 1, Before: false})
+	}
+	reps := r.Pick(2, 20)
+	for i := 0; i < len(hf)*2*reps; i++ {
+		runFault(r, hf[i%len(hf)], (i/len(hf))%2 == 1, rng)
+	}
+	r.Count("backend_fault_sessions", int64(len(hf)*2*reps))
 	h.Exit(r.Finish(100))
 }
